@@ -42,7 +42,18 @@ DhtBucket::remove_node(DhtNode* n) {
   else if (n->is_bad())
     m_bad--;
 
-  m_fullCacheLength = 0;
+  invalidate_caches();
+}
+
+// The other buckets of the chain borrow nodes for their cached replies, so
+// all of them must forget a node that was removed or turned bad.
+void
+DhtBucket::invalidate_caches() {
+  for (DhtBucket* b = this; b != NULL; b = b->m_parent)
+    b->m_fullCacheLength = 0;
+
+  for (DhtBucket* b = m_child; b != NULL; b = b->m_child)
+    b->m_fullCacheLength = 0;
 }
 
 void
